@@ -521,6 +521,37 @@ func c09Seed(c *Ctx, p *Prog, readPackets *ssa.Function) {
 		ob.HoldNT("%d Reset sites; their path conditions test no remembered connection state", nA)
 	}
 
+	// the mode a connection shapes its traffic with is the configured one: both constructors install it
+	ob = c.Obl("R3", "transports/obfs4.obfs4Conn.iatMode#installed", "every obfs4Conn is created with its iatMode set from the configuration it belongs to: the server's from obfs4ServerFactory.iatMode (WrapConn), the client's from obfs4ClientArgs.iatMode (newObfs4ClientConn); the field is written nowhere else")
+	{
+		want := map[string]string{"transports/obfs4:(*obfs4ServerFactory).WrapConn": "transports/obfs4.obfs4ServerFactory", "transports/obfs4:newObfs4ClientConn": "transports/obfs4.obfs4ClientArgs"}
+		got := map[string]bool{}
+		badM := ""
+		for _, s := range p.Stores(tO4, "iatMode") {
+			fk := p.FuncKey(s.Fn)
+			src, ok := want[fk]
+			if !ok {
+				badM = "obfs4Conn.iatMode is written in " + fk
+				continue
+			}
+			if !isFieldLoad(unspill(s.Val), src, "iatMode") {
+				badM = "the iatMode installed at " + p.InstrPos(s.Instr) + " is not " + src + ".iatMode"
+				continue
+			}
+			got[fk] = true
+		}
+		for fk := range want {
+			if !got[fk] && badM == "" {
+				badM = fk + " creates the connection without setting iatMode: it runs in mode 0 whatever was configured"
+			}
+		}
+		if badM != "" {
+			ob.Violate("%s", badM)
+		} else {
+			ob.HoldNT("set in both constructors from their configuration")
+		}
+	}
+
 	ob = c.Obl("R3", "transports/obfs4:(*obfs4Conn).readPackets#adopt-terms", "lenDist is reset with SeedFromBytes(payload) of the PRNG-seed packet and iatDist (when present) with SeedFromBytes(SHA-256(seed bytes)); a failed derivation resets nothing further")
 	bad = ""
 	terms := map[string]string{}
